@@ -21,12 +21,11 @@ Garbage == [valid |-> FALSE, clean |-> FALSE, f |-> NoFlags, sn |-> 0, optlen |-
 Injectable == { M({"conn"}, 0, 0, "none", ""), M({"close"}, 0, 0, "none", ""), M({"hb"}, 0, 0, "none", ""),
                 M({}, 7, 0, "none", ""), M({"opt"}, 1, 9, "rrs_req", "10.0.0.1"), M({"rej"}, 7, 0, "none", "") }
 
-\* how a datagram sent by one handler is decoded by the other: the registration answer is
-\* serialised with the option flag but without option bytes, so the peer's option parser
-\* runs into the payload and the datagram is dropped as undecodable
+\* how a datagram sent by one handler is decoded by the other: the registration answer is a data message with an RRS
+\* payload that is neither a request nor a going-offline notice
 AsReceived(d) ==
-  IF d.payload = "rrs_answer" THEN Garbage
-  ELSE [valid |-> TRUE, clean |-> TRUE, f |-> d.f, sn |-> d.sn, optlen |-> d.optlen, payload |-> "none", radio |-> ""]
+  [valid |-> TRUE, clean |-> TRUE, f |-> d.f, sn |-> d.sn, optlen |-> d.optlen,
+   payload |-> IF d.payload = "rrs_answer" THEN "rrs_other" ELSE "none", radio |-> IF d.payload = "rrs_answer" THEN d.radio ELSE ""]
 
 Init == hs = [p \in Peers |-> InitH] /\ q = [p \in Peers |-> <<>>] /\ budget = Inject
 
